@@ -8,7 +8,7 @@ from flamapy.metamodels.fm_metamodel.operations.fm_core_features import get_core
 
 from .. import refsem as R
 from ..known import known
-from .common import cards_conditions, indexed_shapes, totuple
+from .common import cards_conditions, indexed_shapes, totuple, pair_batch, replay_pair  # noqa: F401
 
 ID = 'C14'
 LEVEL = 'model_checking'
@@ -128,6 +128,16 @@ def batches(tier, seed):
     return [('batch_e2', [N, lo, lo + step, seed + lo]) for lo in range(0, total, step)]
 
 
+_orig_batches = batches
+
+
+def batches(tier, seed):  # noqa: F811
+    n = 3 if tier == 'quick' else 4
+    total = len(R.shapes(n)) * (len(R.shapes(n)) - 1)
+    step = total // 4 + 1
+    return _orig_batches(tier, seed) + [('batch_pairs', [n, lo, lo + step, seed + lo]) for lo in range(0, total, step)]
+
+
 def info(tier):
     return {
         'assumptions': ['0 <= min <= max <= k, max >= 1 per relation (every feature is selectable, no dead features in the tree)',
@@ -137,3 +147,7 @@ def info(tier):
                      'bounds': {'shapes_E1': 'N<=%d' % (5 if tier == 'quick' else 6), 'shapes_E2': 'N<=%d' % (4 if tier == 'quick' else 5), 'constraints': 'one tree of depth<=1'},
                      'stubs': []},
     }
+
+
+def batch_pairs(max_n, lo, hi, seed):
+    return pair_batch(__name__, 'exact', max_n, lo, hi, seed, 'two-models-in-sequence')
